@@ -1,9 +1,14 @@
 PROPERTY = "C16"
 LEVEL = "proof"
-LEAN_MODULES = ["CifModel.Props.C16", "CifModel.Props.ReviewC16"]
+LEAN_MODULES = ["CifModel.Props.C16", "CifModel.Props.ReviewC16", "CifModel.Props.C19"]
 REQUIRED = ["CifModel.C16_init_numb_locale_restored", "CifModel.C16_autoinit_numb_locale_restored",
-            "CifModel.C16_set_c_saves_current", "CifModel.C16_set_c_failure_keeps"]
-GEN = []
+            "CifModel.C16_set_c_saves_current", "CifModel.C16_set_c_failure_keeps",
+            # process-wide state: which functions touch it at all (call sites regenerated from src/*.c)
+            "CifModel.C16_global_state_sites", "CifModel.C16_rounding_mode_restored", "CifModel.C16_setlocale_only_in_protocol",
+            # "every object is releasable by its release function", heap level (theorems live in Props/C19.lean)
+            "CifModel.C16_map_heap_safe", "CifModel.C16_map_set_item_heap_safe", "CifModel.C16_map_remove_item_heap_safe",
+            "CifModel.C16_packet_create_heap_safe", "CifModel.C16_get_keys_heap_safe"]
+GEN = ["GlobalState"]
 FAMILIES = ["locale", "api16"]
 # request streams of the other properties' families, re-run with exact per-case leak accounting (see harness/alloc.h);
 # only families whose executors declare themselves leak-clean take part
@@ -15,6 +20,9 @@ TRUSTED_BASE = [
     "Lean 4.33.0 kernel; axioms propext / Quot.sound only",
     "Model/Locale.lean: hand transcription of set_c_numeric_locale / cif_value_init_numb / cif_value_autoinit_numb's locale "
     "protocol, tied by family `locale` (LC_NUMERIC and fegetround() sampled around the real calls on every path)",
+    "tools/translate_globals.py: textual search of src/*.c and the headers for calls of 45 named functions that read or change "
+    "process-wide state (locale, floating-point environment, environment, signals, seeds, umask/cwd, exit handlers, ICU / SQLite "
+    "global configuration); a call through a function pointer or in a library the code links against is not seen",
     "gcc AddressSanitizer + UndefinedBehaviorSanitizer as detectors of out-of-bounds / use-after-free / UB in the real code; "
     "harness/alloc.h exact leak accounting (--wrap of the allocators in the executor)",
 ]
@@ -26,6 +34,20 @@ ASSUMPTIONS = [
 ]
 PARTIAL = [
     "memory safety of the C code is runtime-observed, not proved (no verified C semantics in this tool set)",
+    "rounding mode: there is no save / restore protocol to model - the library never changes the floating-point environment; "
+    "C16_rounding_mode_restored states exactly that over the regenerated list of call sites (only the query fegetround, in "
+    "round_it), and family `locale` samples fegetround() around the real calls. 'No other function calls setlocale': "
+    "C16_global_state_sites / C16_setlocale_only_in_protocol (the five setlocale sites are in set_c_numeric_locale, "
+    "cif_value_init_numb, cif_value_autoinit_numb = the functions of Model/Locale.lean); cif_create's sqlite3_initialize is the only "
+    "other process-wide call and is meant to last",
+    "'every object can be released by its release function': proved at heap level for maps and packets only "
+    "(C16_map_heap_safe, C16_map_set_item_heap_safe, C16_map_remove_item_heap_safe - whose second branch gives no WF of the "
+    "resulting heap, so it does not chain -, C16_packet_create_heap_safe, C16_get_keys_heap_safe; Props/C19.lean) and, as "
+    "'each block released exactly once', for the clean-up ladders of C17; for every other object it is observed: every executor "
+    "releases all objects it obtained and the leak accounting / ASan must stay silent",
+    "api coverage of the sweep: every public function of cif.h is entered by some swept family and every non-memory error exit "
+    "reachable with valid objects is executed (tools/dev/api_coverage.py, gcov); 24 exits are unreachable through the API "
+    "(notes/agents/gI.md)",
     "proved parts: locale protocol (this file); bounded exponent arithmetic (C10_exponent_no_overflow, property C10); "
     "ownership protocol of the clean-up ladders (property C17) and of map/list cells (property C19, heap level)",
 ]
